@@ -1833,7 +1833,9 @@ class Rule(metaclass=LogicalType):
             with context.enter(route=i) as item_context:
                 try:
                     item_context.transformer(item, cls.contains)
-                except (TypeError, ValueError):
+                except Exception:  # noqa
+                    # whatever makes the conversion fail (OverflowError for inf, an item whose __str__ raises ...),
+                    # the item is simply not one of the contained type
                     pass
                 else:
                     contains += 1
